@@ -735,9 +735,11 @@ def _r_raise(ck, world, table, rules, infos) -> None:
                     side = 'left' if v == params[1] else 'right' if v == params[2] else None
                     asserted = classes_of_term(world, table, module, _expand(table, rule, term(test.args[1]), params[0]))
                     if side is None:
-                        key = (rule.name, v)
+                        bound = path_env(path).get(v)
+                        role = 'index' if bound is not None and bound[0] == 'sub' and bound[1] == ('attr', ('var', params[2]), 'indices') else v
+                        key = (rule.name, role)
                         if key in VALUE_ASSERT_ALLOW:
-                            ck.ok('R-RAISE', path.node, f'value-level assert allow-listed: {VALUE_ASSERT_ALLOW[key]}', instance=f'{rule.name} assert {v}', nontrivial=False)
+                            ck.ok('R-RAISE', path.node, f'value-level assert allow-listed: {VALUE_ASSERT_ALLOW[key]}', instance=f'{rule.name} assert on an element of right.indices', nontrivial=False)
                         else:
                             ck.incomplete('R-RAISE', path.node, f'assert on {v}, which is not an operand of the rule', instance=f'{rule.name} assert {v}')
                         continue
